@@ -354,7 +354,7 @@ def table(chk, tier):
 
 # ------------------------------------------------------------------ spec -> code : generated cases on real nodes
 GEN_CFG = ('SPECIFICATION Spec\nCONSTANT DoEmit = TRUE\nINVARIANT Sanity\nINVARIANT ImplAdmissibleElem\nINVARIANT ImplAdmissibleComp\n'
-           'INVARIANT ImplExactOnSingle\nINVARIANT DefLaws\nINVARIANT EmitDef\nINVARIANT EmitCompDef\nINVARIANT Emit\n')
+           'INVARIANT ImplExactOnSingle\nINVARIANT ImplComplete\nINVARIANT DefLaws\nINVARIANT EmitDef\nINVARIANT EmitCompDef\nINVARIANT Emit\n')
 
 
 class World(object):
@@ -487,7 +487,7 @@ def generate_and_replay(chk, tier):
             raise vlib.MachineryError('generated cases: %d replayed, %d validated' % (len(cases), stat['cases']))
         # component_missed (a component's own error hidden by another component's) is judged by T_ElemValid only: the generator's
         # admissible report sets are per composite, not per component
-        only_tv = any(r[2] == 'component_missed' for r in rejected)
+        only_tv = any(r[2] in ('component_missed', 'incomplete') for r in rejected)
         if nrej < nbad or (nrej > nbad and not only_tv):
             raise vlib.MachineryError('generated cases: %d replays leave the admissible reports ElemValidGen emitted but T_ElemValid rejects %d: '
                                       'the two uses of the definition disagree' % (nbad, nrej))
